@@ -133,7 +133,7 @@ Section ParseProofs.
     match lookup_type name types with
     | None | Some TNoValue => Ok VNone
     | Some TList | Some TCallCrash => Err ETypeError name
-    | Some TDefer => Err EAssertion name
+    | Some TDefer => Err ENotSettable name
     | Some TBool => match dvalue relaxed name text with Some v => Ok v | None => Err EBadBool name end
     | Some TInt => match dvalue relaxed name text with Some v => Ok v | None => Err EBadInt name end
     | Some (TEnum _ _) => match dvalue relaxed name text with Some v => Ok v | None => Err EBadEnum name end
